@@ -11,6 +11,9 @@
                                                               see Model/C19FlagTable.lean)
     anyflag             Value.String / SliceValue.String / GetSlice
     utils/cobrautil     DescribeFlags, formats OneLine and Plain
+    http_proxy.go       upstreamProxyURL + the "using upstream proxy" line (`url.Redacted()`)
+    pflag / utils/cobrautil/bind.go   "invalid argument %q for %q flag: " for a rejected flag value
+    tls.go              loadRootCAs: `append certificate %q` (wrapped as `load CAs: …`)
 
   A flag value is modelled from the *raw string* the user supplies (command line, FORWARDER_*
   variable, config file entry) to the text that `DescribeFlags` prints for it: `describeValue`
@@ -458,6 +461,68 @@ def shown (fmt : Format) (p : ConfigPub) : Bytes :=
   match fmt with
   | .plain => ((shownLines fmt p).map (· ++ [10])).flatten
   | .oneLine => joinWith [44, 32] (shownLines fmt p)
+
+/-! ### the upstream proxy URL of the "using upstream proxy" start-up line -/
+
+/-- http_proxy.go `upstreamProxyURL` (no Kerberos): a `--proxy` URL without userinfo takes the
+    userinfo of the `--credentials` entry that matches its host:port (`cred`, `none` = no match) -/
+def upstreamProxyURL (u : ProxyURL) (cred : Option Userinfo) : ProxyURL :=
+  match u.user with
+  | some _ => u
+  | none => { u with user := cred }
+
+/-- the `url` attribute of the line: `upstreamProxyURL().Redacted()` -/
+def upstreamLogURL (u : ProxyURL) (cred : Option Userinfo) : Bytes :=
+  redactURL (some (upstreamProxyURL u cred))
+
+/-! ### error texts that render a flag value
+
+  Both are defects of the unchanged tree (F43, F44): the value is printed with `%q`, not through
+  the flag's redactor.  The model says what is printed; the theorems say for which configurations
+  that is harmless and exhibit one for which it is not. -/
+
+/-- `%q` (`strconv.Quote`) on printable ASCII: only `"` and `\` are escaped -/
+def quoteAscii (s : Bytes) : Bytes :=
+  34 :: (s.flatMap fun c => if c == 34 || c == 92 then [92, c] else [c]) ++ [34]
+
+/-- how a usage error names the flag (pflag, cobrautil/bind.go): shorthand first if there is one -/
+def flagUsageName : String → Bytes
+  | "proxy" => ascii "-x, --proxy"
+  | "credentials" => ascii "-s, --credentials"
+  | n => ascii "--" ++ ascii n
+
+/-- where a flag value comes from -/
+inductive Source where
+  | flag | env | file
+  deriving DecidableEq, Repr
+
+/-- the `%q` of the rejected value: the command-line argument, the text of the `FORWARDER_*`
+    variable, the config-file string — or, for a config-file list, `%q` of the `[]any`: `["a" "b"]` -/
+def echoedValue (src : Source) (slice : Bool) (raws : List Bytes) : Bytes :=
+  match src, slice with
+  | .file, true => 91 :: joinWith [32] (raws.map quoteAscii) ++ [93]
+  | _, _ => quoteAscii (joinWith [44] raws)
+
+/-- `invalid argument "…" for "--flag" flag: ` — the text in front of the parser's own message -/
+def invalidArgText (src : Source) (name : String) (slice : Bool) (raws : List Bytes) : Bytes :=
+  ascii "invalid argument " ++ echoedValue src slice raws ++ ascii " for " ++
+    quoteAscii (flagUsageName name) ++ ascii " flag: "
+
+/-- the first raw value of a flag that its parser rejects -/
+def firstRejected (k : Kind) : List Bytes → Option Bytes
+  | [] => none
+  | r :: rs => if (describeValue k r).isNone then some r else firstRejected k rs
+
+/-- what a start-up prints about rejected values of the secret-bearing flags (command-line form:
+    parsing stops at the first rejected argument of a flag) -/
+def flagErrors (ss : List Setting) : List Bytes :=
+  ss.filterMap fun s => (firstRejected s.kind s.raws).map fun r => invalidArgText .flag s.name s.slice [r]
+
+/-- tls.go `loadRootCAs`: `fmt.Errorf("append certificate %q", name)` for a `--cacert-file` value
+    that holds no PEM certificate, wrapped by `ConfigureTLSConfig` as `load CAs: %w`; this is the
+    `error` of the "fatal error exiting" record and the content of the termination log -/
+def caCertErrorText (raw : Bytes) : Bytes :=
+  ascii "load CAs: append certificate " ++ quoteAscii raw
 
 /-- decidable infix test used by the driver (`bytes.Contains`) -/
 def isInfix (s : Bytes) : Bytes → Bool
